@@ -20,6 +20,7 @@ type Worker struct {
 	S      *Solver
 	cross  []*Solver
 	Disagreements int
+	CrossUnknown  int // assertion queries on which a cross-check solver answered unknown
 	pool   []Model // recent models, tried before asking the solver
 	strObj map[string]*Obj
 	Opts   Options
@@ -110,6 +111,12 @@ func (p *Path) checkAssert(extra ...*Term) (Result, Model) {
 		as := append(append([]*Term{}, p.pc...), extra...)
 		for _, cs := range p.W.cross {
 			r2, _ := cs.Check(as)
+			if r2 == Unknown && res != Unknown {
+				// the second solver gave up (time limit, unsupported construct): the main
+				// solver's verdict stands un-cross-checked for this query; counted, not an alarm
+				p.W.CrossUnknown++
+				continue
+			}
 			if r2 != res {
 				p.W.Disagreements++
 				p.inconcl = append(p.inconcl, fmt.Sprintf("solver disagreement: %s=%s %s=%s", p.W.S.Name, res, cs.Name, r2))
